@@ -187,6 +187,19 @@ func runOnce(sc *Scenario, prefix []int) runOut {
 				x.Fail("no-data-race", "data race: %s  ||  %s", rc.First, rc.Second)
 			}
 		}
+		// a body that never returns never reaches its oracle: that must not pass silently
+		for _, b := range r.Blocked {
+			if !strings.HasPrefix(b, "main: ") {
+				continue
+			}
+			ok := false
+			for _, a := range sc.AllowBlocked {
+				ok = ok || strings.Contains(b, a)
+			}
+			if !ok && r.Panic == "" && !r.Runaway {
+				x.Fail("body-completes", "the scenario body is still blocked when nothing can run any more (%s); blocked threads: %v", b, r.Blocked)
+			}
+		}
 		if sc.Post != nil {
 			sc.Post(x, r)
 		}
